@@ -600,7 +600,7 @@ class modict(odict):
         If last is True pop in LIFO order.
         If last is False pop in FIFO order.
         """
-        key, val = super(modict, self).popitem(last=last)
+        key, val = self.poplistitem(last=last)
         return (key, val[index])
 
     def poplistitem(self, last=True):
@@ -609,7 +609,13 @@ class modict(odict):
         If last is True pop in LIFO order.
         If last is False pop in FIFO order.
         """
-        return (super(modict, self).popitem(last=last))
+        if last:
+            return (super(modict, self).popitem())
+        try:
+            key = self._keys[0]
+        except IndexError:
+            raise KeyError('Empty odict.')
+        return (key, super(modict, self).pop(key))
 
     def fromkeys(self, seq, default=None):
         """
@@ -630,7 +636,7 @@ class modict(odict):
                 for k, v in a.iterallitems():
                     self.append(k, v)
             elif hasattr(a, 'get'): #positional arg is dictionary
-                for k, v in a.iteritems():
+                for k, v in a.items():
                     self.append(k, v)
             else: #positional arg is sequence of duples (k,v)
                 for k, v in a:
